@@ -375,6 +375,7 @@ asts! {
     };
     List {
         value_list: ValueList,
+        r#type: Type,
     };
     ValueList {
         values: [Value],
